@@ -519,4 +519,31 @@ example : (⟨2, 9, ofString "fe80::1:2", "ipv6"⟩ : ER) ∈
     ipExtract RTV.Gen.reTables pyChars RTV.Gen.ipv4Regex RTV.Gen.ipv6Regex (ofString "( fe80::1:2 )") := by
   decide +kernel
 
+/-! ### two observations about the Chinese configuration (zh-*, ja-*) — NOT property violations
+
+The reported text is a valid address in both cases, so C13's soundness clause holds; the address just does not stand
+as its own token.  The correspondence counts them as evidence (`zh_ip_glued_latin_k`,
+`zh_ip_glued_ellipsis_after_cjk`); optional patches: /verif/findings/sequence/*.diff. -/
+
+/-- `k1.2.3.4` → `1.2.3.4`: the look-behind class `[\u0800-\u9FFF]` of `ChinesePhoneNumbers.WordBoundariesRegex` is
+compiled with IGNORECASE and contains U+212A KELVIN SIGN, whose case folding is `k` … -/
+theorem zh_latin_k_observation :
+    ipExtract RTV.Gen.reTables pyChars RTV.Gen.zhIpv4Regex RTV.Gen.zhIpv6Regex (ofString "k1.2.3.4") =
+      [⟨1, 7, ofString "1.2.3.4", "ipv4"⟩] := by decide +kernel
+
+/-- … while any other Latin letter blocks the match -/
+theorem zh_latin_j_blocks :
+    ipExtract RTV.Gen.reTables pyChars RTV.Gen.zhIpv4Regex RTV.Gen.zhIpv6Regex (ofString "j1.2.3.4") = [] := by
+  decide +kernel
+
+/-- `是1:2:3:4:5:6:7::x` → `1:2:3:4:5:6:7::`: the guard for a match ending in `::` asks `is_cjk(source[start - 1])`
+(mirrored by `sweepGo`: `index s (start - 1)`) instead of `is_cjk(source[i + 1])`, so after a CJK character a following
+Latin letter does not reject the match; after a blank it does. -/
+theorem zh_ellipsis_end_after_cjk_observation :
+    ipExtract RTV.Gen.reTables pyChars RTV.Gen.zhIpv4Regex RTV.Gen.zhIpv6Regex
+        (26159 :: ofString "1:2:3:4:5:6:7::x") = [⟨1, 15, ofString "1:2:3:4:5:6:7::", "ipv6"⟩] ∧
+    ipExtract RTV.Gen.reTables pyChars RTV.Gen.zhIpv4Regex RTV.Gen.zhIpv6Regex
+        (32 :: ofString "1:2:3:4:5:6:7::x") = [] := by
+  constructor <;> decide +kernel
+
 end RTV.C13
